@@ -2,9 +2,11 @@ package rules
 
 import (
 	"fmt"
+
 	"go/types"
 	"sort"
 	"strings"
+	"verifcheck/internal/prog"
 
 	"golang.org/x/tools/go/ssa"
 	"verifcheck/internal/report"
@@ -52,6 +54,8 @@ func (c *Ctx) imm() *immEngine {
 	}
 	return c.immE
 }
+
+func progFacts(b *ssa.BasicBlock) []prog.Fact { return prog.DominatingFacts(b) }
 
 // hasRefs: values of this type can carry a reference to shared mutable memory.
 func hasRefs(t types.Type) bool { return hasRefsSeen(t, map[types.Type]bool{}) }
@@ -582,6 +586,9 @@ func (s *immState) events(in ssa.Instruction, f *ssa.Function, res *immResult, c
 		}
 	case *ssa.Return:
 		for _, r := range x.Results {
+			if scalarByExhaustion(r, x.Block()) {
+				continue // an `any` that is neither map[string]any nor []any on this path: an immutable YAML scalar
+			}
 			if hasRefs(r.Type()) && s.carries(r) && f == s.top {
 				res.RetOwned = append(res.RetOwned, x)
 				var at []string
@@ -658,6 +665,35 @@ func (s *immState) events(in ssa.Instruction, f *ssa.Function, res *immResult, c
 			}
 		}
 	}
+}
+
+// scalarByExhaustion: v has static type `any` and the block is reached only
+// after comma-ok assertions of v to both map[string]any and []any failed.
+// Decoded YAML values are maps, lists or scalars (trusted base), so v is an immutable scalar here.
+func scalarByExhaustion(v ssa.Value, b *ssa.BasicBlock) bool {
+	it, ok := v.Type().Underlying().(*types.Interface)
+	if !ok || it.NumMethods() != 0 {
+		return false
+	}
+	failedMap, failedList := false, false
+	for _, f := range progFacts(b) {
+		ex, ok := f.Cond.(*ssa.Extract)
+		if !ok || f.Val || ex.Index != 1 {
+			continue
+		}
+		ta, ok := ex.Tuple.(*ssa.TypeAssert)
+		if !ok || ta.X != v {
+			continue
+		}
+		switch u := ta.AssertedType.Underlying().(type) {
+		case *types.Map:
+			failedMap = true
+		case *types.Slice:
+			_ = u
+			failedList = true
+		}
+	}
+	return failedMap && failedList
 }
 
 func boolInt(b bool) int {
